@@ -253,23 +253,45 @@ func (e *uxfEnv) getBlockHash(height int64) (*chainhash.Hash, error) {
 	return &h, nil
 }
 
+// filterMatches: the repository's blockFilterMatches over a ChainSource whose
+// GetCFilter answers at once (see uxChainSrc in the replay driver).
 func (e *uxfEnv) filterMatches(ro *rescanOptions, hash *chainhash.Hash) (bool, error) {
 	h := e.cd.height[*hash]
-	truth, err := matchBlockFilter(ro, e.cd.filters[h], hash)
-	if err != nil {
-		return false, err
-	}
-	if e.arrive(uxFilter, h) {
+	var rel uxRelease
+	src := &uxChainSrc{cd: e.cd,
+		gate: func(int) uxRelease {
+			if e.arrive(uxFilter, h) {
+				if e.rng.Intn(2) == 0 {
+					rel.stale = true
+				} else {
+					rel.fail = true
+				}
+			} else if e.cfg.FalsePos && e.rng.Intn(4) == 0 {
+				rel.match = true
+			}
+			return rel
+		},
+		watch: func() [][]byte {
+			e.lmu.Lock()
+			defer e.lmu.Unlock()
+			var w [][]byte
+			for _, r := range e.reqs {
+				w = append(w, uxScript(r.tx, r.idx))
+			}
+			return w
+		}}
+	m, _, err := blockFilterMatches(src, ro, hash)
+	switch {
+	case rel.fail:
 		e.release(uxFilter, h, "fail")
-		return false, errUxInjected
-	}
-	m := truth || (e.cfg.FalsePos && e.rng.Intn(4) == 0)
-	if m {
+	case rel.stale:
+		e.release(uxFilter, h, "stale")
+	case m:
 		e.release(uxFilter, h, "match")
-	} else {
+	default:
 		e.release(uxFilter, h, "nomatch")
 	}
-	return m, nil
+	return m, err
 }
 
 func (e *uxfEnv) getBlock(hash chainhash.Hash, _ ...QueryOption) (*btcutil.Block, error) {
